@@ -175,7 +175,10 @@ def execute(check: Check, case, stats: Stats, known, masked=()) -> List[tuple]:
     """Run one case. Returns the list of *unknown* violations [(signature, detail)]."""
     ctx = Ctx(check.name)
     try:
-        check.run(case, ctx)
+        import contextlib
+        import io
+        with contextlib.redirect_stdout(io.StringIO()):     # what the code under test prints is not part of the result
+            check.run(case, ctx)
     except Violation as v:
         ctx.violation(v.signature, v.detail)
     except HarnessError:
